@@ -434,6 +434,74 @@ fn pump_op_patterns(set2: bool) -> Vec<Vec<Op>> {
     v
 }
 
+/// Debug-fingerprint BFS over a curated alphabet of Keyboard operations (bits, clear, valid
+/// and rejected words, prefix / key / unknown bytes, modifier and ordinary events, both mode
+/// setters); every replayed history is compared with the wired stages incl. the probe suffix.
+fn c18_explore<D: Dec>(run: &mut Run) {
+    let (a, arrow) = if D::IS_SET2 { (0x1Cu8, 0x74u8) } else { (0x1Eu8, 0x4Du8) };
+    let brk: u8 = if D::IS_SET2 { 0xF0 } else { 0x9E };
+    let alphabet: Vec<Op> = vec![
+        Op::Bit(false), Op::Bit(true), Op::Clear,
+        Op::Word(frame::encode(0xE0)), Op::Word(frame::encode(brk)), Op::Word(frame::encode(a)), Op::Word(frame::encode(arrow)),
+        Op::Word(frame::encode(0xE0) ^ 0x200), Op::Word(frame::encode(a) ^ 0x400), Op::Word(frame::encode(a) | 1),
+        Op::Byte(0xE0), Op::Byte(brk), Op::Byte(0xE1), Op::Byte(a), Op::Byte(arrow), Op::Byte(0xFF),
+        Op::Event(KeyCode::LShift, KeyState::Down), Op::Event(KeyCode::LShift, KeyState::Up), Op::Event(KeyCode::A, KeyState::Down),
+        Op::SetCtrl(HandleControl::Ignore), Op::SetCtrl(HandleControl::MapLettersToUnicode),
+    ];
+    let cap = run.tier.pick(40_000usize, 400_000usize);
+    let start = HandleControl::MapLettersToUnicode;
+    let out = crate::explore::bfs(alphabet.len(), cap, 8, |h| {
+        let ops: Vec<Op> = h.iter().map(|i| alphabet[*i as usize]).collect();
+        let fp = guard(|| {
+            let mut k = Keyboard::new(D::fresh(), EncLayout { id: 0 }, start);
+            for o in &ops {
+                let _ = apply_kbd(&mut k, o);
+            }
+            format!("{:?}", k)
+        })?;
+        let d = diverge::<D>(&ops, start)?;
+        Ok((fp, d.is_none()))
+    });
+    run.eval(out.histories_run);
+    run.nontrivial_enum(out.histories_run);
+    for f in &out.failures {
+        let ops: Vec<Op> = f.iter().map(|i| alphabet[*i as usize]).collect();
+        c18_eval::<D>(run, &ops, start);
+    }
+    run.part(&format!("{}_state_exploration", D::NAME), json!({"alphabet": ops_text(&alphabet), "states_found": out.states, "state_cap": cap, "closed": out.closed, "max_depth": out.max_depth, "histories_replayed": out.histories_run, "ops_replayed": out.steps, "failing(sampled)": out.failures.len()}));
+}
+
+/// Typematic repeat at the frame level through Keyboard: the same accepted frame k times
+/// (as words or bit by bit), then every single-bit corruption of it, in every scancode context.
+fn c18_repeat_then_perturb<D: Dec>(run: &mut Run) {
+    let ctxs = contexts::<D>();
+    let bytes: [u8; 3] = if D::IS_SET2 { [0x1C, 0x12, 0x75] } else { [0x1E, 0x2A, 0x48] };
+    let mut n = 0u64;
+    for c in &ctxs {
+        for &b in &bytes {
+            let w = frame::encode(b);
+            for k in 1..=8usize {
+                for via_bits in [false, true] {
+                    for i in 0..11 {
+                        let bad = w ^ (1 << i);
+                        let mut ops: Vec<Op> = c.iter().map(|x| Op::Byte(*x)).collect();
+                        for _ in 0..k {
+                            if via_bits { ops.extend(bits_ops(w, 11)) } else { ops.push(Op::Word(w)) }
+                        }
+                        // a pending prefix makes a wrongly accepted frame visible in the scancode stage too
+                        ops.extend(c.iter().map(|x| Op::Byte(*x)));
+                        if via_bits { ops.extend(bits_ops(bad, 11)) } else { ops.push(Op::Word(bad)) }
+                        c18_eval::<D>(run, &ops, HandleControl::MapLettersToUnicode);
+                        n += 1;
+                    }
+                }
+            }
+        }
+    }
+    run.nontrivial_enum(n);
+    run.part(&format!("{}_repeat_then_perturb", D::NAME), json!({"cases": n, "repeat_counts": "1..=8", "contexts": ctxs.len()}));
+}
+
 fn c18_pumping<D: Dec>(run: &mut Run) {
     let mut n = 0u64;
     let pats = pump_op_patterns(D::IS_SET2);
@@ -448,7 +516,7 @@ fn c18_pumping<D: Dec>(run: &mut Run) {
 }
 
 pub fn c18(run: &mut Run) {
-    run.rule = "Differential against three separately owned stages (Ps2Decoder, ScancodeSetN, EventDecoder) wired exactly as the property says; every return value is compared, and after each sequence both sides receive a probe suffix that fingerprints every stage behaviourally (press of A through an argument-encoding layout = modifiers + mode; byte 0x14/0x1D = a different event in every scancode context; two valid frames bit by bit = pending count and register contents). Exhaustive per-operation slices over the fed stage with the other stages in non-initial states: add_bit (2047 frame states x 2 bits x 6/3 scancode contexts x 8 modifier states), add_word (2048 words x contexts x 8 x 3 frame states), add_byte (256 x contexts x 64 frame states x 8), process_keyevent (124 x 3 x 64 frame states x contexts x 2), clear / set_ctrl_handling (2047 x contexts x 8 x 3). Pumping: typical operation patterns repeated for >= 70,000 operations. Random: interleavings of all six entry points with line noise (corrupted frames, partial frames + clear(), raw words), shrunk by proptest. Non-trivial slice = another stage in a non-initial state (distinct by construction); non-trivial sequence = mixes >= 2 entry points and contains a rejected frame or a clear() with pending bits while a scancode prefix is pending (distinct by op string).".into();
+    run.rule = "Differential against three separately owned stages (Ps2Decoder, ScancodeSetN, EventDecoder) wired exactly as the property says; every return value is compared, and after each sequence both sides receive a probe suffix that fingerprints every stage behaviourally (press of A through an argument-encoding layout = modifiers + mode; byte 0x14/0x1D = a different event in every scancode context; two valid frames bit by bit = pending count and register contents). Exhaustive per-operation slices over the fed stage with the other stages in non-initial states: add_bit (2047 frame states x 2 bits x 6/3 scancode contexts x 8 modifier states), add_word (2048 words x contexts x 8 x 3 frame states), add_byte (256 x contexts x 64 frame states x 8), process_keyevent (124 x 3 x 64 frame states x contexts x 2), clear / set_ctrl_handling (2047 x contexts x 8 x 3). State exploration: BFS over a 21-symbol alphabet of operations with states named by Keyboard's Debug rendering. Repeat-then-perturb: the same accepted frame 1-8 times (typematic repeat, as words and bit by bit), then each single-bit corruption, in every scancode context. Pumping: typical operation patterns repeated for >= 70,000 operations. Random: interleavings of all six entry points with line noise (corrupted frames, partial frames + clear(), raw words), shrunk by proptest. Non-trivial slice = another stage in a non-initial state (distinct by construction); non-trivial sequence = mixes >= 2 entry points and contains a rejected frame or a clear() with pending bits while a scancode prefix is pending (distinct by op string).".into();
     run.assumptions = vec![
         "the three stage types are used as their own reference: this is the relation the property states; what each stage does alone is C01-C07/C04/C14's business".into(),
         "words with bits above bit 10 are excluded (outside add_word's documented precondition)".into(),
@@ -457,6 +525,10 @@ pub fn c18(run: &mut Run) {
     c18_slices::<ScancodeSet1>(run);
     c18_pumping::<ScancodeSet2>(run);
     c18_pumping::<ScancodeSet1>(run);
+    c18_explore::<ScancodeSet2>(run);
+    c18_explore::<ScancodeSet1>(run);
+    c18_repeat_then_perturb::<ScancodeSet2>(run);
+    c18_repeat_then_perturb::<ScancodeSet1>(run);
     run.exhaustive = true;
     let n = run.tier.pick(5_000u32, 500_000u32);
     c18_random::<ScancodeSet2>(run, n);
@@ -475,19 +547,18 @@ fn c08_panic(run: &mut Run, component: &str, input: String, msg: &str, case: Val
 }
 
 fn c08_graph<D: Dec>(run: &mut Run) {
-    let g = Graph::<D>::extract();
+    let g = Graph::<D>::extract_with_cap(crate::graph::state_cap(run.tier == crate::report::Tier::Thorough));
     let mut cells = 0u64;
-    for s in 0..g.trans.len() {
-        let hist = g.history(s);
-        for b in 0..g.trans[s].len() {
+    for s in 0..g.expanded() {
+        for b in 0..=255u8 {
             cells += 1;
             if s != 0 {
                 run.nontrivial_enum(1);
             }
-            if let Step::Panic(p) = &g.trans[s][b] {
-                let mut bytes = hist.clone();
-                bytes.push(b as u8);
-                c08_panic(run, &format!("{}::advance_state", D::NAME), format!("bytes [{}]", hex(&bytes)), p, json!({"kind":"c08_bytes","set":D::NAME,"bytes":bytes}));
+            if let Step::Panic(p) = g.step(s, b) {
+                let mut bytes = g.history(s);
+                bytes.push(b);
+                c08_panic(run, &format!("{}::advance_state", D::NAME), format!("bytes [{}]", hex(&bytes)), &p, json!({"kind":"c08_bytes","set":D::NAME,"bytes":bytes}));
             }
         }
     }
@@ -784,6 +855,43 @@ pub fn c08(run: &mut Run) {
         run.eval(N * res.len() as u64);
         run.nontrivial_enum(res.len() as u64);
         run.part("pumping_2^32", json!({"jobs": res.iter().map(|(n, e)| json!({"job": n, "panicked": e.is_some()})).collect::<Vec<_>>(), "calls_per_job": N}));
+    }
+
+    // random event histories (typematic repeats, many keys held at once) on every layout
+    {
+        let cases = run.tier.pick(4_000u32, 300_000u32);
+        let stats = RefCell::new((0u64, 0u64, Vec::<u64>::new()));
+        let to_ops = |evops: &Vec<gen::EvOp>| -> Vec<Op> {
+            evops.iter().flat_map(gen::ev_op_flat).filter_map(|f| match f { gen::FlatEv::Key(k, s) => Some(Op::Event(k, s)), gen::FlatEv::SetMode(m) => Some(Op::SetCtrl(m)), _ => None }).collect()
+        };
+        let outcome = run_prop(run.seed, 0xC08_E, cases, (0usize..N_LAYOUTS, gen::ev_history(250, 1)), |(l, evops), counting| {
+            let ops = to_ops(evops);
+            let mut probe = Run::probe("C08");
+            c08_eval_ops::<ScancodeSet2>(&mut probe, *l, &ops);
+            if counting {
+                let mut st = stats.borrow_mut();
+                st.0 += 1;
+                st.1 += ops.len() as u64;
+                // held-key census per the history: non-trivial if >= 6 keys are down at once
+                let mut held = std::collections::BTreeSet::new();
+                let mut maxheld = 0;
+                for o in &ops {
+                    if let Op::Event(k, s) = o {
+                        match s { KeyState::Down => { held.insert(key_idx(*k)); } KeyState::Up => { held.remove(&key_idx(*k)); } _ => {} }
+                        maxheld = maxheld.max(held.len());
+                    }
+                }
+                if maxheld >= 6 { st.2.push(fp(&(l, ops_text(&ops)))); }
+            }
+            match probe.violations.keys().next() { None => Ok(()), Some(s) => Err(s.clone()) }
+        });
+        let st = stats.into_inner();
+        run.eval(st.0);
+        for f in &st.2 { run.nontrivial_fp(*f); }
+        run.part("random_event_histories", json!({"cases": st.0, "events": st.1, "with_>=6_keys_held_at_once": st.2.len()}));
+        if let Some(((l, evops), _)) = outcome.failure {
+            c08_eval_ops::<ScancodeSet2>(run, l, &to_ops(&evops));
+        }
     }
 
     let n = run.tier.pick(5_000u32, 300_000u32);
